@@ -12,6 +12,16 @@ las[slice] (views), rec[mask] / rec[index list] (copies), copy(), records built 
 las.points = rec, from_point_record / convert, SubFieldViews kept in a variable - then the operations above on any of them:
 after EVERY step EVERY object is compared, byte for byte, with what it must hold (an assignment on A changes B exactly where B
 is a view of the addressed points of A).
+READ ROUTES (round 5; Model/SubFieldRec.v `route`): "reads back the assigned values" is judged through EVERY way a caller reads
+a sub-field - np.array / np.asarray with every dtype (bool, int8..uint64, float16..64, every spelling), view[i] / view[slice] /
+view[mask] / view[index list] and selections of those, list / iteration / in, view.max() / min() with and without arguments,
+np.max / min / sum / unique / count_nonzero / nonzero / sort / bincount / cumsum / mean ..., ufuncs and reductions, arithmetic,
+the six comparisons on both sides with ints / numpy scalars / floats / bools / lists / arrays / live views, copy(), repr(), the
+view's packed bytes; obj[name], obj.name, the old names, las.points[name], las.points.name, obj[selection][name] - against
+(byte & mask) >> lsb decoded from the raw bytes of the record in Python: after EVERY step of every history and world (a
+rotating subset of the routes), and in a systematic sweep of every format x sub-field x adversarial sibling bits (all ones, all
+zeros, alternating, the bytes - so the higher siblings - ordered opposite to the field, random), followed by assignments of
+adversarial values to every sibling of the byte (all routes). The routes the model has are compared with the implementation's.
 Search: the property on the implementation (a Python statement of the expected bytes, no model involved)."""
 import json
 
@@ -22,6 +32,7 @@ from harness import common
 DRIVER = "c09"
 ASSUMPTIONS = ["numpy resolves an index expression (slice, mask, index list, integer) to positions; the model receives the positions",
                "a slice of a numpy array (and of a SubFieldView / point record built on it) is a view: the harness resolves a chain of slices to positions with Python's range(n)[slice], the model composes them",
+               "read routes: the model's conversions (wrap_int, as_bool) and reductions (list_max, list_min, list_sum, unique) are numpy's astype / max / min / sum / unique on the unpacked uint8 values; the correspondence compares them on every case, the oracle states them in Python integers",
                "worlds: which API route gives a view and which gives memory of its own is read off the unchanged code and pinned in OWorld (harness) / the WSlice-WGather-WNew choice of the model command; two mmaps of one file and the file are one memory (MAP_SHARED, Linux page cache); a reader sees the file as it was when it was opened"]
 
 
@@ -97,7 +108,17 @@ def correspond(ctx):
                          "from_point_record / convert to any format, kept SubFieldViews, dropped objects; then view / whole-dimension / "
                          "copy_fields_from operations (also from a live record of the same memory) on any object: after every step every "
                          "live object and the mapped file are compared with the expected bytes (all dimensions) and, per packed column, "
-                         "with the model's world; non-trivial = at least two record objects alive")
+                         "with the model's world; non-trivial = at least two record objects alive. "
+                         "READ ROUTES: after every step of every history / world the assigned field and a sibling of its byte (after a copy: three "
+                         "sub-fields; every kept SubFieldView) are read through a rotating subset of ~100 routes (always: np.array, "
+                         "np.asarray dtype=bool + one int + one float type, view[i], list, max / min as method and as numpy function, sum, unique, "
+                         "count_nonzero, comparisons, a slice and a fancy selection of the view, a second way to reach the view, a selection of the "
+                         "record) and compared with (byte & mask) >> lsb decoded from the raw bytes; SWEEP: every format x sub-field, records of "
+                         "2-12 points (thorough 1-64) whose packed bytes are descending / ascending (the field assigned in the opposite order), "
+                         "all ones, all zeros, alternating 0xFF/0x00 and 0xAA/0x55, random; the field assigned through all / ... / slice / mask / "
+                         "index array / setitem / setattr; then every sibling of the byte assigned ordered / constant / alternating / random "
+                         "values: after every step ~600 routes of the field in each of the 6 ways to reach its view, and the model's routes "
+                         "(array, max, min, sum, count, unique, bool, 8 integer types, items, 36 comparisons) of every field of the byte")
     sfs = sub_fields()
     vals = values(ctx)
     masks = sorted({m for _, _, _, m in sfs})
@@ -209,6 +230,7 @@ def correspond(ctx):
         if not ok:
             dis.append({"kind": f"index expression {desc[2]}", "input": {"desc": desc, "cmd": cmd}, "model": mo, "impl": str(im)})
     dis += correspond_sessions(ctx)
+    dis += correspond_routes(ctx)
     dis += correspond_worlds(ctx)
     return dis
 
@@ -489,22 +511,351 @@ def check_op(fmt, raw_before, op, status, raw_after):
     return None
 
 
-def check_reads(host, fmt):
-    """np.array(rec[name]) of every sub-field agrees with the packed bytes"""
+# ---------------------------------------------------------------------------------------------------------------------
+# round 5: READ ROUTES - "reads back the assigned values" judged through EVERY way a caller reads a sub-field
+# ---------------------------------------------------------------------------------------------------------------------
+# The expected values are decoded from the raw bytes of the record (tobytes + the offset of the composed dimension in the
+# dtype), (byte & mask) >> lsb in Python integers: no laspy code, no numpy arithmetic. Every route below must give them:
+#   np.array / np.asarray (with and without dtype=: bool, every int / uint width, float16/32/64, spelled as numpy types,
+#   Python types, strings, np.dtype objects), view.copy(), view[i] (Python / numpy index, negative), view[slice] /
+#   view[mask] / view[index list] and slices of those, list(view) / iteration / `in`, len / shape / ndim,
+#   view.max() / view.min() (with and without arguments), max() / min() / sorted() of Python,
+#   np.max / min / sum / unique / count_nonzero / nonzero / any / all / argmax / argmin / sort / bincount / cumsum / mean /
+#   where / isin / array_equal / concatenate / take (through __array_function__), ufuncs and their reductions (through
+#   __array_ufunc__), the arithmetic operators, the six comparisons (both sides) with Python ints / numpy scalars / floats /
+#   bools / lists / arrays / live views, repr(); and the ways to reach the view: obj[name], obj.name, the old laspy names,
+#   las.points[name], las.points.name, obj[selection][name].
+import operator
+import zlib
+
+ROUTE_DTYPES = [np.bool_, np.int8, np.int16, np.int32, np.int64, np.uint8, np.uint16, np.uint32, np.uint64,
+                np.float16, np.float32, np.float64]
+DTYPE_SPELLINGS = [bool, int, float, "?", "bool", "b1", "i1", "u1", "<i2", "<u4", "i8", "f4", "f8", "float64", "uint8",
+                   "int32", np.intp, np.uintp, np.longlong, np.half, np.bool_]
+CMP_OPS = [("<", operator.lt), ("<=", operator.le), (">=", operator.ge), (">", operator.gt), ("==", operator.eq), ("!=", operator.ne)]
+MODEL_CMP = {"<": 0, "<=": 1, ">=": 2, ">": 3, "==": 4, "!=": 5}
+
+
+def conv(v, dt):
+    """numpy's conversion of a small non-negative integer to dtype dt, in Python"""
+    k = dt.kind
+    if k == "b":
+        return v != 0
+    if k == "u":
+        return v % (1 << (8 * dt.itemsize))
+    if k == "i":
+        bits = 8 * dt.itemsize
+        r = v % (1 << bits)
+        return r - (1 << bits) if r >= 1 << (bits - 1) else r
+    return float(v)
+
+
+def packed_bytes(rec, c):
+    """the composed byte of every point, read off the raw bytes of the record"""
+    arr = rec.array
+    raw, sz, off = arr.tobytes(), arr.dtype.itemsize, arr.dtype.fields[c][1]
+    return [raw[i * sz + off] for i in range(len(raw) // sz)]
+
+
+def _norm(x):
+    if isinstance(x, tuple):
+        return tuple(_norm(y) for y in x)
+    if isinstance(x, list):
+        return [_norm(y) for y in x]
+    if isinstance(x, (np.ndarray, np.generic)):
+        return x.tolist()
+    if hasattr(x, "__array__"):
+        return np.array(x).tolist()                               # a derived view
+    return x
+
+
+class _Pick:
+    """deterministic choices (a failing input must fail again when it is replayed)"""
+
+    def __init__(self, salt):
+        self.s = salt & 0xFFFFFFFF
+
+    def _next(self):
+        self.s = (self.s * 1103515245 + 12345) & 0x7FFFFFFF
+        return self.s >> 8
+
+    def choice(self, seq):
+        return seq[self._next() % len(seq)]
+
+    def some(self, seq, k):
+        seq = list(seq)
+        if len(seq) <= k:
+            return seq
+        out = []
+        for _ in range(k):
+            out.append(seq.pop(self._next() % len(seq)))
+        return out
+
+
+def cmp_constants(maxv, level, pk):
+    """(type name, constant) operands of a comparison: level 2 = every value once per form in rotation and every form once"""
+    cs = [-1, 0, 1, maxv, maxv + 1, max(0, maxv // 2), 255, 256, -300, 1000]
+
+    def forms(c):
+        fs = [("int", c), ("np.int64", np.int64(c)), ("float", float(c)), ("float", c + 0.5), ("np.float32", np.float32(c))]
+        if 0 <= c <= 255:
+            fs.append(("np.uint8", np.uint8(c)))
+        if -128 <= c <= 127:
+            fs.append(("np.int8", np.int8(c)))
+        if c in (0, 1):
+            fs += [("bool", bool(c)), ("np.bool_", np.bool_(c))]
+        return fs
+    if level == 0:
+        return [("int", pk.choice(cs))]
+    if level == 1:
+        return [pk.choice(forms(c)) for c in pk.some(cs, 2)]
+    out = []
+    for c in cs:
+        fs = forms(c)
+        out.append(fs[0])
+        out.extend(pk.some(fs[1:], 2))
+    return out + forms(1) + forms(maxv)
+
+
+def _slices_of(n, level, pk):
+    sl = [slice(None), slice(None, None, -1), slice(None, None, 2), slice(1, None, 2), slice(0, 0), slice(n // 2, None),
+          slice(None, max(1, n // 2)), slice(n - 1, n), slice(-2, None), slice(None, None, -3), slice(1, -1)]
+    return sl if level == 2 else pk.some(sl, 1)
+
+
+def routes(v, want, maxv, level, pk, others=None, depth=0):
+    """(label, thunk, expected value, dtype the result must have or None) for the read routes of the view v, whose values
+    must be `want`. level 0: one route per method of the view (used for derived views and the secondary ways to reach a view),
+    1: the routes after every step of a history, 2: everything. others = {name: (live view, its values)} of sub-fields of
+    the same record (operands of comparisons)."""
+    W = list(want)
+    n = len(W)
+    full = level == 2
+    yield "np.array(view)", (lambda: np.array(v)), W, None
+    if level:
+        yield "np.asarray(view)", (lambda: np.asarray(v)), W, None
+    for D in (ROUTE_DTYPES if full else [np.bool_] + pk.some(ROUTE_DTYPES[1:9], 1) + (pk.some(ROUTE_DTYPES[9:], 1) if level else [])):
+        dt = np.dtype(D)
+        exp = [conv(x, dt) for x in W]
+        yield f"np.asarray(view, dtype={dt.name})", (lambda D=D: np.asarray(v, dtype=D)), exp, dt
+        if full:
+            yield f"np.array(view, dtype={dt.name})", (lambda D=D: np.array(v, dtype=D)), exp, dt
+    for D in (DTYPE_SPELLINGS if full else pk.some(DTYPE_SPELLINGS, 1) if level else []):
+        dt = np.dtype(D)
+        yield f"np.array(view, dtype={D!r}, copy=True)", (lambda D=D: np.array(v, dtype=D, copy=True)), [conv(x, dt) for x in W], dt
+    yield "view.copy()", (lambda: v.copy()), W, None
+    for meth in ("astype", "tolist"):                              # if the view ever gets them
+        if hasattr(v, meth):
+            yield f"view.{meth}", (lambda meth=meth: getattr(v, meth)(*([np.int64] if meth == "astype" else []))), W, None
+    if level:
+        yield "view.array (the packed bytes) masked and shifted by hand", (
+            lambda: [(int(b) & int(v.bit_mask)) >> int(v.lsb) for b in np.asarray(v.array).reshape(-1).tolist()]), W, None
+    if np.ndim(v.array) != 1:
+        return
+    yield "list(view)", (lambda: list(v)), W, None
+    yield "len(view)", (lambda: len(v)), n, None
+    if level:
+        yield "[int(x) for x in view]", (lambda: [int(x) for x in v]), W, None
+        yield "view.shape", (lambda: tuple(v.shape)), (n,), None
+    if full:
+        yield "view.ndim", (lambda: v.ndim), 1, None
+        yield "tuple(iter(view))", (lambda: tuple(iter(v))), tuple(W), None
+        yield "repr(view)", (lambda: repr(v)), f"<SubFieldView({np.array(W, dtype=np.uint8)})>", None
+        for c in (0, maxv, maxv + 1):
+            yield f"{c} in view", (lambda c=c: c in v), c in W, None
+    for i in (range(-n, n) if full else pk.some(range(-n, n), 2 if level else 1)):
+        yield f"view[{i}]", (lambda i=i: v[i]), W[i], None
+        if full or (level and i % 2):
+            yield f"view[np.int64({i})]", (lambda i=i: v[np.int64(i)]), W[i], None
+            yield f"int(view[{i}]) / bool / float", (lambda i=i: (int(v[i]), bool(v[i]), float(v[i]))), (W[i], W[i] != 0, float(W[i])), None
+    if n:
+        yield "view.max()", (lambda: v.max()), max(W), None
+        yield "view.min()", (lambda: v.min()), min(W), None
+        yield "np.max(view)", (lambda: np.max(v)), max(W), None
+        yield "np.min(view)", (lambda: np.min(v)), min(W), None
+        if level:
+            yield "view.max(axis=0)", (lambda: v.max(axis=0)), max(W), None
+            yield "view.min(axis=None)", (lambda: v.min(axis=None)), min(W), None
+            yield "max(view) / min(view)", (lambda: (max(v), min(v))), (max(W), min(W)), None
+            yield "np.maximum.reduce / np.minimum.reduce", (lambda: (np.maximum.reduce(v), np.minimum.reduce(v))), (max(W), min(W)), None
+        if full:
+            yield "view.max(initial=0)", (lambda: v.max(initial=0)), max(W), None
+            yield "np.amax / np.amin", (lambda: (np.amax(v), np.amin(v))), (max(W), min(W)), None
+            yield "np.argmax / np.argmin", (lambda: (np.argmax(v), np.argmin(v))), (W.index(max(W)), W.index(min(W))), None
+            yield "np.ptp(view)", (lambda: np.ptp(v)), max(W) - min(W), None
+    yield "np.sum(view)", (lambda: np.sum(v)), sum(W), None
+    yield "np.unique(view)", (lambda: np.unique(v)), sorted(set(W)), None
+    if level:
+        nz = [i for i, x in enumerate(W) if x]
+        yield "np.count_nonzero(view)", (lambda: np.count_nonzero(v)), len(nz), None
+        yield "np.nonzero(view)", (lambda: np.nonzero(v)), (nz,), None
+        yield "np.add.reduce(view)", (lambda: np.add.reduce(v)), sum(W), None
+        yield "np.logical_not(view)", (lambda: np.logical_not(v)), [not x for x in W], None
+        yield "view + 0", (lambda: v + 0), W, None
+    if full:
+        yield "np.any / np.all", (lambda: (np.any(v), np.all(v))), (any(W), all(W)), None
+        yield "np.sort(view)", (lambda: np.sort(v)), sorted(W), None
+        yield "sorted(view)", (lambda: sorted(v)), sorted(W), None
+        yield "np.bitwise_and(view, 1)", (lambda: np.bitwise_and(v, 1)), [x & 1 for x in W], None
+        yield "np.where(view) / np.flatnonzero", (lambda: (np.where(v), np.flatnonzero(v))), ((nz,), nz), None
+        yield "np.where(view, 1, 0)", (lambda: np.where(v, 1, 0)), [1 if x else 0 for x in W], None
+        yield "np.bincount(view)", (lambda: np.bincount(v)), ([W.count(x) for x in range(max(W) + 1)] if W else []), None
+        yield "np.cumsum(view)", (lambda: np.cumsum(v)), [sum(W[:i + 1]) for i in range(n)], None
+        yield "np.unique(view, return_counts=True)", (lambda: np.unique(v, return_counts=True)), (sorted(set(W)), [W.count(x) for x in sorted(set(W))]), None
+        if n:
+            yield "np.mean(view)", (lambda: np.mean(v)), sum(W) / n, None
+        yield "np.isin(view, [0, maxv])", (lambda: np.isin(v, [0, maxv])), [x in (0, maxv) for x in W], None
+        yield "np.array_equal(view, values)", (lambda: np.array_equal(v, np.array(W, dtype=np.int64))), True, None
+        yield "np.concatenate([view, view])", (lambda: np.concatenate([v, v])), W + W, None
+        yield "np.take(view, [..])", (lambda: np.take(v, list(range(0, n, 2)))), W[0::2], None
+        yield "np.add(view, 0) / np.multiply(view, 1)", (lambda: (np.add(v, 0), np.multiply(v, 1))), (W, W), None
+        yield "np.add.accumulate(view, dtype=int64)", (lambda: np.add.accumulate(v, dtype=np.int64)), [sum(W[:i + 1]) for i in range(n)], None
+        yield "view - 0, view * 1, view // 1", (lambda: (v - 0, v * 1, v // 1)), (W, W, W), None
+        yield "view / 1", (lambda: v / 1), [float(x) for x in W], None
+    # comparisons, both sides
+    for tname, c in cmp_constants(maxv, level, pk):
+        every = full and tname == "int"                            # Python ints: the six operators, both sides
+        for sym, fn in (CMP_OPS if every else pk.some(CMP_OPS[:4], 1) + pk.some(CMP_OPS[4:], 1)):
+            if every or not full or pk.choice([0, 1]):
+                yield f"view {sym} {tname}({c})", (lambda fn=fn, c=c: fn(v, c)), [bool(fn(x, c)) for x in W], None
+            else:
+                yield f"{tname}({c}) {sym} view", (lambda fn=fn, c=c: fn(c, v)), [bool(fn(c, x)) for x in W], None
+            if every:
+                yield f"{tname}({c}) {sym} view", (lambda fn=fn, c=c: fn(c, v)), [bool(fn(c, x)) for x in W], None
+    if level:
+        rev = W[::-1]
+        for sym, fn in (CMP_OPS if full else pk.some(CMP_OPS, 1)):
+            yield f"view {sym} list of its values reversed", (lambda fn=fn: fn(v, rev)), [bool(fn(x, y)) for x, y in zip(W, rev)], None
+            yield f"view {sym} int64 array", (lambda fn=fn: fn(v, np.array(rev, dtype=np.int64))), [bool(fn(x, y)) for x, y in zip(W, rev)], None
+            yield f"view {sym} view", (lambda fn=fn: fn(v, v)), [bool(fn(x, x)) for x in W], None
+            for oname, (ov, ow) in (others or {}).items():
+                yield f"view {sym} view of {oname}", (lambda fn=fn, ov=ov: fn(v, ov)), [bool(fn(x, y)) for x, y in zip(W, ow)], None
+        yield "np.equal(view, c) / np.less(view, c) / np.greater_equal(c, view)", (
+            lambda: (np.equal(v, maxv), np.less(v, maxv), np.greater_equal(1, v))), ([x == maxv for x in W], [x < maxv for x in W], [1 >= x for x in W]), None
+    # derived views: every selection of the view is a view of the selected values
+    if depth == 0 and level:
+        sels = [("view[%s]" % str(sl).replace("slice", ""), sl, W[sl]) for sl in _slices_of(n, level, pk)]
+        if n:
+            mask = [bool((i * 7 + pk.s) % 3) for i in range(n)]
+            idx = [(i * 5 + pk.s) % n for i in range(min(n, 4))] + [-1]
+            more = [("view[bool mask]", np.array(mask), [x for x, b in zip(W, mask) if b]),
+                    ("view[index list]", list(idx), [W[i] for i in idx]),
+                    ("view[index array]", np.array(idx, dtype=np.int64), [W[i] for i in idx]), ("view[...]", Ellipsis, W)]
+            sels += more if full else pk.some(more, 1)
+        for label, key, dw in sels:
+            try:
+                dv = v[key]
+            except Exception as ex:
+                yield label, (lambda ex=ex: (_ for _ in ()).throw(ex)), dw, None
+                continue
+            for lab2, fn, exp, dt in routes(dv, dw, maxv, 0, pk, None, depth + 1):
+                yield label + ": " + lab2.replace("view", "it"), fn, exp, dt
+            if full and len(dw) > 1:
+                yield label + "[::-1][0]", (lambda dv=dv: dv[::-1][0]), dw[-1], None
+
+
+class _Why(str):
+    """a description of a wrong read, carrying the class of the route (for the `kind` of the failing input)"""
+    route = None
+
+
+def _why(label, text):
+    import re
+    w = _Why(text)
+    w.route = re.sub(r"\[(-?\d+)\]", "[i]", re.sub(r"\((-?[\d.]+)\)", "(c)", re.sub(r"view\[\([^)]*\)\]", "view[slice]", label)))
+    return w
+
+
+def run_routes(v, want, maxv, level, pk, others=None, prefix=""):
+    """first route of the view that does not read `want`: a description, or None"""
+    for label, fn, exp, dt in routes(v, want, maxv, level, pk, others):
+        try:
+            got = fn()
+        except Exception as ex:
+            return _why(label, f"{prefix}{label} raised {type(ex).__name__}: {str(ex)[:80]} (the field holds {list(want)})")
+        g = _norm(got)
+        if g != exp:
+            return _why(label, f"{prefix}{label} reads {str(g)[:120]}, the bits of the field say {str(exp)[:120]}")
+        if dt is not None and getattr(got, "dtype", None) != dt:
+            return _why(label, f"{prefix}{label} has dtype {getattr(got, 'dtype', None)}")
+    return None
+
+
+VIEW_PATHS = ["item", "attr", "old", "old_attr", "points_item", "points_attr"]
+
+
+def view_by(host, name, path):
+    """the view of a sub-field, reached the way `path` says; None if the path does not exist for this object / name"""
+    obj = host.obj
+    if path.startswith("points_"):
+        if host.kind != "las":
+            return None
+        obj, path = host.record(), path[len("points_"):]
+    if path in ("old", "old_attr") and name not in OLD_NAMES:
+        return None
+    return (obj[name] if path == "item" else getattr(obj, name) if path == "attr"
+            else obj[OLD_NAMES[name]] if path == "old" else getattr(obj, OLD_NAMES[name]))
+
+
+def check_reads(host, fmt, op=None, level="core", salt=0):
+    """every sub-field, read through the routes, agrees with the packed bytes decoded by hand"""
     try:
-        return _check_reads(host, fmt)
+        return _check_reads(host, fmt, op, level, salt)
     except Exception as ex:
-        return f"reading the sub-fields back raised {type(ex).__name__}: {str(ex)[:100]}"
+        return _why("raised", f"reading the sub-fields back raised {type(ex).__name__}: {str(ex)[:100]}")
 
 
-def _check_reads(host, fmt):
+def _check_reads(host, fmt, op, level, salt):
+    """level "core" / "core:<name>": the assigned field (<name>) through the level-1 routes and one sibling of its byte through
+    the level-0 routes (three random sub-fields after a copy); "full" / "full:<name>": <name> (default: the assigned field)
+    through everything, in every way to reach its view, and the siblings of its byte through the level-1 routes ("focus:<name>":
+    level-0 routes). Every sub-field is read once through np.array in any case."""
     rec = host.record()
     tab, _ = fmt_table(fmt)
+    pk = _Pick(salt)
+    by_name = {nm: (c, m) for nm, c, m in tab}
+    names = [nm for nm, _, _ in tab]
+    main = level.split(":")[1] if ":" in level else (op or {}).get("field")
+    full = level.startswith("full") or level.startswith("focus")
+    sib_level = 0 if level.startswith("focus") else 1
+    if main in by_name:
+        sibs = [nm for nm, c, _ in tab if c == by_name[main][0] and nm != main]
+        group = [main] + (sibs if full else pk.some(sibs, 1))
+    else:
+        main = None
+        group = names if full else pk.some(names, 3)
+    wants = {}
     for name, c, m in tab:
+        wants[name] = [(b & m) >> lsb_of(m) for b in packed_bytes(rec, c)]
         got = np.array(rec[name]).astype(np.int64).tolist()
-        want = ((rec.array[c].astype(np.int64) & m) >> lsb_of(m)).tolist()
-        if got != want:
-            return f"{name} reads {got} while its bits say {want}"
+        if got != wants[name]:
+            return f"{name} reads {got} while its bits say {wants[name]}"
+    n = len(rec.array)
+    for name in group:
+        c, m = by_name[name]
+        maxv = m >> lsb_of(m)
+        deep = full and name == (main or name)
+        others = {o: (rec[o], wants[o]) for o in (group if deep else pk.some(group, 2)) if o != name}
+        lvl1 = pk.choice(VIEW_PATHS[1:3] if host.kind != "las" else VIEW_PATHS[1:2] + VIEW_PATHS[4:])
+        for path in (VIEW_PATHS if deep else ["item"] + pk.some(VIEW_PATHS[1:], 1) if (full and sib_level) or name == group[0] else ["item"]):
+            v = view_by(host, name, path)
+            if v is None:
+                continue
+            lvl = (2 if deep else sib_level if full else 1 if name == group[0] else 0) if path == "item" else (1 if deep and path == lvl1 else 0)
+            why = run_routes(v, wants[name], maxv, lvl, pk, others if path == "item" else None, f"{name} ({path}): ")
+            if why:
+                return why
+        # through a selection of the points (a new record object): obj[selection][name]
+        if n and ((full and sib_level) or name == group[0]):
+            sels = [("[::-1]", slice(None, None, -1), wants[name][::-1]), ("[1::2]", slice(1, None, 2), wants[name][1::2]),
+                    ("[mask]", np.array([i % 3 != 1 for i in range(n)]), [x for i, x in enumerate(wants[name]) if i % 3 != 1]),
+                    ("[[n-1, 0]]", [n - 1, 0], [wants[name][n - 1], wants[name][0]])]
+            for label, key, dw in (sels if deep else pk.some(sels, 1)):
+                for base, bname in ((host.obj, "obj"), (rec, "points")) if host.kind == "las" and deep else ((rec, "points"),):
+                    sub = base[key]
+                    why = run_routes(sub[name], dw, maxv, 0, pk, None, f"{name} ({bname}{label}[name]): ")
+                    if why:
+                        return why
     return None
 
 
@@ -789,15 +1140,31 @@ def model_op(fmt, n, op):
     return f"V!{op['field']}!{ch}!{sel}"
 
 
-def run_session(sess):
+def _level(sess, i):
+    """how thoroughly the sub-fields are read back after step i: sess["routes"] = a level, or one per step"""
+    lv = sess.get("routes", "core")
+    return lv if isinstance(lv, str) else lv[min(i, len(lv) - 1)]
+
+
+def run_session(sess, observe=None):
     """implementation side: [(raw_before, op, status, raw_after, reads_problem)]"""
-    host = Host(sess["host"], sess["format"], bytes.fromhex(sess["raw"]))
+    try:
+        host = Host(sess["host"], sess["format"], bytes.fromhex(sess["raw"]))
+    except Exception as ex:                                       # (LasData reads the sub-fields when it is given its points)
+        import traceback
+        tb = traceback.extract_tb(ex.__traceback__)
+        raw = bytes.fromhex(sess["raw"])
+        return [(raw, op, "err:host", raw, f"building the {sess['host']} record over the points raised {type(ex).__name__}: {str(ex)[:100]} "
+                 f"(at {tb[-1].filename.split('/laspy/')[-1]}:{tb[-1].lineno})") for op in sess["ops"][:1]]
     steps = []
     for op in sess["ops"]:
         before = host.raw()
         status = apply_op(host, op)
         after = host.raw()
-        steps.append((before, op, status, after, check_reads(host, sess["format"])))
+        steps.append((before, op, status, after,
+                      check_reads(host, sess["format"], op, _level(sess, len(steps)), zlib.crc32(after))))
+        if observe is not None:
+            observe(host, op, len(steps) - 1)
     return steps
 
 
@@ -807,11 +1174,18 @@ def session_failures(sess, steps):
     out = []
     fmt = sess["format"]
     for i, (before, op, status, after, reads) in enumerate(steps):
-        why = check_op(fmt, before, op, status, after) or reads
-        if not why:
+        if status == "err:host":
+            out.append({"kind": "creating the record raised", "input": {**sess, "ops": sess["ops"][:1]}, "observed": reads})
+            break
+        why = check_op(fmt, before, op, status, after)
+        if not why and not reads:
             continue
         kind = classify(fmt, len(before) // _itemsize(fmt), op)
+        if not why:
+            why, kind = reads, "read route " + (getattr(reads, "route", None) or "np.array(view)")
         single = {"format": fmt, "host": sess["host"], "raw": before.hex(), "ops": [op]}
+        if "routes" in sess:
+            single["routes"] = _level(sess, i)
         st1 = run_session(single)
         why1 = check_op(fmt, st1[0][0], op, st1[0][2], st1[0][3]) or st1[0][4]
         if why1:
@@ -867,6 +1241,194 @@ def correspond_sessions(ctx):
                             "model": (mstatus + " " + mcols)[:200], "impl": (status + " " + icols)[:200]})
                 break
     return dis
+
+
+# ---------------------------------------------------------------------------------------------------------------------
+# read routes: the systematic sweep (every format x sub-field x adversarial sibling bits), the model's routes
+# ---------------------------------------------------------------------------------------------------------------------
+def pattern_bytes(pattern, n, rng):
+    """the packed byte of n points BEFORE the field is assigned: what the siblings hold"""
+    if pattern == "ones":
+        return [0xFF] * n
+    if pattern == "zeros":
+        return [0x00] * n
+    if pattern == "alternating":
+        return [0xFF if i % 2 == 0 else 0x00 for i in range(n)]
+    if pattern == "aa55":
+        return [0xAA if i % 2 == 0 else 0x55 for i in range(n)]
+    if pattern == "descending":
+        return [(n - 1 - i) * 255 // max(1, n - 1) for i in range(n)]
+    if pattern == "ascending":
+        return [i * 255 // max(1, n - 1) for i in range(n)]
+    return [rng.randrange(256) for _ in range(n)]
+
+
+def pattern_values(kind, n, maxv, rng):
+    """values of one field"""
+    if kind == "ascending":
+        return [i * maxv // max(1, n - 1) for i in range(n)]
+    if kind == "descending":
+        return [(n - 1 - i) * maxv // max(1, n - 1) for i in range(n)]
+    if kind == "ones":
+        return [maxv] * n
+    if kind == "zeros":
+        return [0] * n
+    if kind == "alternating":
+        return [maxv if i % 2 == 0 else 0 for i in range(n)]
+    if kind == "zero-one-point":
+        return [0 if i == n // 2 else rng.randrange(1, maxv + 1) for i in range(n)]
+    if kind == "max-one-point":
+        return [maxv if i == n // 2 else rng.randrange(maxv) for i in range(n)]
+    return [rng.randrange(maxv + 1) for _ in range(n)]
+
+
+# what the siblings hold x what is assigned to the field: siblings all ones / all zeros / alternating, the bytes (so the
+# HIGHER siblings) ordered opposite to the field, random
+SWEEP = [("descending", "ascending"), ("ascending", "descending"), ("ones", "zero-one-point"), ("zeros", "max-one-point"),
+         ("alternating", "alternating"), ("aa55", "random"), ("random", "random"), ("ones", "zeros"), ("zeros", "ones")]
+
+
+def whole_assign(rng, name, n, vs, kindhost):
+    """an operation that assigns vs to all n points of the sub-field, through one of the index expressions / entry points"""
+    r = rng.randrange(7)
+    val = {"t": "array", "dtype": rng.choice(["int64", "uint8", "int32"]), "v": vs} if rng.random() < 0.6 else {"t": "list", "v": vs}
+    if r < 5:
+        idx = list(range(n))
+        key = [{"k": "all"}, {"k": "ellipsis"}, {"k": "slice", "v": [0, n, 1]}, {"k": "mask", "v": [True] * n}, {"k": "arr", "v": idx}][r]
+        path = rng.choice(["item", "attr"] + (["old"] if name in OLD_NAMES else []))
+        if kindhost == "las" and rng.random() < 0.5:
+            path = "points_" + path
+        return {"op": "view", "field": name, "path": path, "chain": [], "key": key, "value": val}
+    return {"op": "seq", "field": name, "path": ["setitem", "setattr"][r - 5], "value": val}
+
+
+def route_sessions(rng, thorough=False):
+    """for every format and sub-field: the field assigned on records whose sibling bits are adversarial (one session per
+    pattern), then every sibling of its byte assigned adversarial values through the API while the field must keep reading
+    the same through every route"""
+    out = []
+    for fmt in range(11):
+        tab, _ = fmt_table(fmt)
+        sz = _itemsize(fmt)
+        off = {c: _dtype(fmt).fields[c][1] for _, c, _ in tab}
+        for name, c, m in tab:
+            maxv = m >> lsb_of(m)
+            sibs = [(nm, mm) for nm, cc, mm in tab if cc == c and nm != name]
+            sweep = SWEEP if thorough else SWEEP[:2] + rng.sample(SWEEP[2:], 1)
+            for pat, vk in sweep:
+                for n in ([1, 2, 5, 12, 64] if thorough else [rng.choice([2, 5, 12, 12])]):
+                    raw = bytearray(rand_bytes(rng, n * sz))
+                    for cc in off:
+                        for i, b in enumerate(pattern_bytes(pat, n, rng)):
+                            raw[i * sz + off[cc]] = b
+                    host = rng.choice(HOSTS)
+                    out.append({"format": fmt, "host": host, "raw": bytes(raw).hex(), "routes": ("full:" if thorough else "focus:") + name,
+                                "ops": [whole_assign(rng, name, n, pattern_values(vk, n, maxv, rng), host)]})
+            # the siblings move, the field stays
+            n = rng.choice([3, 8, 12])
+            host = rng.choice(HOSTS)
+            vs = pattern_values(rng.choice(["ascending", "descending", "random"]), n, maxv, rng)
+            ops = [whole_assign(rng, name, n, vs, host)]
+            kinds = ["descending", "ascending", "ones", "zeros", "alternating", "random"]
+            for sn, sm in sibs:
+                for vk in (kinds if thorough else rng.sample(kinds[:2], 1) + rng.sample(kinds[2:], 1)):
+                    ops.append(whole_assign(rng, sn, n, pattern_values(vk, n, sm >> lsb_of(sm), rng), host))
+            out.append({"format": fmt, "host": host, "raw": rand_bytes(rng, n * sz).hex(), "ops": ops,
+                        "routes": "full:" + name if thorough else ["focus:" + name, "core:" + name]})
+    return out
+
+
+def model_route_tokens(n, maxv):
+    toks = ["arr", "max", "min", "sum", "cnt", "uniq", "bool", "i8", "u8", "i16", "u16", "i32", "u32", "i64", "u64"]
+    toks += [f"at{i}" for i in sorted({0, n // 2, max(0, n - 1), n})]
+    toks += [f"c{op}_{c}" for op in range(6) for c in sorted({-1, 0, 1, maxv, maxv + 1, 256})]
+    return toks
+
+
+def impl_route(v, tok):
+    """what the implementation reads through the route the model calls `tok`, in the model driver's syntax"""
+    try:
+        if tok == "arr":
+            r = np.array(v)
+        elif tok == "max":
+            r = [v.max()]
+        elif tok == "min":
+            r = [v.min()]
+        elif tok == "sum":
+            r = [np.sum(v)]
+        elif tok == "cnt":
+            r = [np.count_nonzero(v)]
+        elif tok == "uniq":
+            r = np.unique(v)
+        elif tok == "bool":
+            r = np.asarray(v, dtype=bool)
+        elif tok.startswith("at"):
+            r = [v[int(tok[2:])]]
+        elif tok[0] in "iu":
+            r = np.asarray(v, dtype=np.dtype(("int" if tok[0] == "i" else "uint") + tok[1:]))
+        else:
+            op, c = tok[1:].split("_")
+            r = CMP_OPS[int(op)][1](v, int(c))
+    except (ValueError, IndexError):
+        return "none"
+    return common.zl(int(x) for x in np.asarray(r).reshape(-1).tolist())
+
+
+_ROUTE_FAILS = []
+_ROUTES_RAN = []
+
+
+def correspond_routes(ctx):
+    """the sweep on the implementation (failures kept for `search`), and every route the model has, on the bytes the
+    implementation holds after every step, against what the implementation reads through that route"""
+    sessions = route_sessions(ctx.rng, ctx.thorough())
+    cmds, meta = [], []
+    for sess in sessions:
+        fmt = sess["format"]
+        tab, _ = fmt_table(fmt)
+        by_name = {nm: (c, m) for nm, c, m in tab}
+        focus = _level(sess, 0).split(":")[1]
+        group = [focus] + [nm for nm, c, _ in tab if c == by_name[focus][0] and nm != focus]
+
+        def observe(host, op, i, sess=sess, group=group, by_name=by_name):
+            rec = host.record()
+            for nm in (group if ctx.thorough() else [group[0], group[1 + i % (len(group) - 1)]] if len(group) > 1 else group):
+                c, m = by_name[nm]
+                bs = packed_bytes(rec, c)
+                toks = model_route_tokens(len(bs), m >> lsb_of(m))
+                v = rec[nm]
+                cmds.append(f"sf_routes {m} {common.hexb(bytes(bs))} {','.join(toks)}")
+                meta.append((sess, i, nm, toks, [impl_route(v, t) for t in toks]))
+        steps = run_session(sess, observe)
+        _ROUTE_FAILS.extend(session_failures(sess, steps))
+        ctx.count("routes:" + sess["host"])
+        ctx.count("routes:steps", len(steps))
+    _ROUTES_RAN.append(True)
+    dis = []
+    seen = set()
+    for (sess, i, nm, toks, impl), cmd, mo in zip(meta, cmds, common.run_model(cmds, name=DRIVER)):
+        ctx.traces += 1
+        ctx.evaluations += len(toks)
+        ctx.case(cmd, nontrivial=True, sample={"routes": {"format": sess["format"], "field": nm, "cmd": cmd[:100], "model": mo[:100]}} if len(ctx.samples) < 9 and i else None)
+        mvals = mo.split(";")
+        if mvals != impl:
+            j = next((j for j in range(min(len(mvals), len(impl))) if mvals[j] != impl[j]), 0)
+            kind = "read route " + toks[j].rstrip("-0123456789_") if len(mvals) == len(impl) else "read route driver"
+            if kind not in seen:
+                seen.add(kind)
+                dis.append({"kind": kind, "input": {"session": {**sess, "ops": sess["ops"][:i + 1]}, "field": nm, "route": toks[j]},
+                            "model": (mvals[j] if j < len(mvals) else mo)[:200], "impl": impl[j][:200]})
+    return dis
+
+
+def search_routes(ctx):
+    """the sweep of the read routes on the implementation (run again only if the correspondence did not get to it)"""
+    if _ROUTES_RAN:
+        return list(_ROUTE_FAILS)
+    out = []
+    for sess in route_sessions(ctx.rng, ctx.thorough()):
+        out.extend(session_failures(sess, run_session(sess)))
+    return out
 
 
 # =====================================================================================================================
@@ -1480,6 +2042,12 @@ def run_world(sess, upto=None):
                     col = np.frombuffer(want, dtype=np.uint8).view(ow.bufs[e["buf"]][1].dtype)[e["col"]]
                     ok = (np.asarray(v.array).tobytes() == col.tobytes()
                           and np.array(v).astype(np.int64).tolist() == ((col.astype(np.int64) & e["mask"]) >> lsb_of(e["mask"])).tolist())
+                    if ok:                                        # the view kept by the caller, through its read routes
+                        vwant = [(b & e["mask"]) >> lsb_of(e["mask"]) for b in col.tobytes()]
+                        vwhy = run_routes(v, vwant, e["mask"] >> lsb_of(e["mask"]), 1, _Pick(zlib.crc32(col.tobytes()) + i))
+                        if vwhy:
+                            return ({"kind": f"objects: {step_class(st)} on {t_origin}: reads of a kept view", "input": {**sess, "steps": sess["steps"][:i + 1]},
+                                     "observed": f"step {i}: the kept view {k} of {e['field']}: {vwhy}"}, trace)
                     have = None
                 else:
                     have = state[k][1]
@@ -1506,7 +2074,7 @@ def run_world(sess, upto=None):
                 return ({"kind": f"objects: {step_class(st)} on {t_origin}: the mapped file", "input": {**sess, "steps": sess["steps"][:i + 1]},
                          "observed": f"step {i}: the points in the file differ from what the mmap views say"}, trace)
             if st["s"] in ("op", "copyfrom") and tgt_e is not None:
-                why = check_reads(aw.objs[target], ow.fmt_of(tgt_e))
+                why = check_reads(aw.objs[target], ow.fmt_of(tgt_e), st.get("op"), "core", zlib.crc32(ow.raw_of(tgt_e)) + i)
                 if why:
                     return ({"kind": f"objects: {step_class(st)} on {t_origin}: reads", "input": {**sess, "steps": sess["steps"][:i + 1]}, "observed": why}, trace)
             trace.append(entry)
@@ -1991,13 +2559,18 @@ def search_worlds(ctx):
 
 def search(ctx, seeds):
     failing, seen = [], set()
+    for f in search_routes(ctx):                                  # the sweep of the read routes first: at most three classes
+        if f["kind"] not in seen and len(failing) < 3:
+            seen.add(f["kind"])
+            failing.append(f)
+    nroute = len(failing)
     for f in _SESSION_FAILS + search_sessions(ctx):
         if f["kind"] not in seen:
             seen.add(f["kind"])
             failing.append(f)
-    failing = failing[:6]
+    failing = failing[:6 + nroute]
     wf = search_worlds(ctx)
-    failing = failing[:6 - min(3, len(wf))] + wf[:3]
+    failing = failing[:6 + nroute - min(3, len(wf))] + wf[:3]
     seen.update(f["kind"] for f in wf)
     for f in _ARR_FAILS:
         if f["kind"] not in seen:
@@ -2016,7 +2589,7 @@ def search(ctx, seeds):
                 if kind not in seen:
                     seen.add(kind)
                     failing.append({"kind": kind, "input": {"format": fmt, "field": name, "value": v}, "observed": why})
-    return failing[:10]
+    return failing[:12]
 
 
 def replay(ctx, data):
